@@ -86,6 +86,14 @@ Record tobs := mkTObs {
   o_at8 : option nat; o_at16 : option nat; o_at32 : option nat   (* token_at_position(start_pos) *)
 }.
 
+(* a node of the AST: parent (itself for a top-level node), whether it has a span field of its own
+   (otherwise lo..hi is the hull of its children), the span, whether it lies on character boundaries,
+   whether the text at the span is the identifier / literal the node holds, the previous sibling, and
+   whether the node has to lie inside its parent's own span *)
+Record anode := mkAN {
+  an_parent : nat; an_own : bool; an_lo : N; an_hi : N; an_bnd : bool; an_text : bool;
+  an_prev : option nat; an_cover : bool }.
+
 Record case := mkCase {
   c_model : bool;                    (* false for inputs of thousands of tokens: the model parser is not
                                         re-run (too slow under vm_compute); K then evaluates the CONCLUSIONS
@@ -96,7 +104,10 @@ Record case := mkCase {
   c_texts_ok : bool;                 (* the token texts (source[span]) concatenate to the source *)
   c_root_text_ok : bool;             (* CST::root().text() == source (true when no CST: invalid UTF-8) *)
   c_toks : option (list tobs);       (* tokens of the CST in order; None = try_into_cst Err (invalid UTF-8 token) *)
-  c_ast : option (list (N * N))      (* spans found in AST::from(Parser); None = it panicked *)
+  c_ast : option (list (N * N));     (* spans found in AST::from(Parser); None = it panicked *)
+  c_ast_nodes : list anode;          (* every node of the AST (structs / enum variants of its Debug rendering), preorder *)
+  c_valid_utf8 : bool;               (* the source is valid UTF-8 *)
+  c_cst_built : bool                 (* Parser::try_into_cst returned Ok *)
 }.
 
 Definition ptok_of (o : tobs) : ptok :=
@@ -166,6 +177,21 @@ Definition check_case (c : case) : bool :=
     match c_toks c with Some os => positions_match os | None => true end
   end.
 
+(* every AST node: span ordered, inside the source, on character boundaries, holding the text the node
+   says; covered by its parent's span; after its previous sibling *)
+Definition ast_nodes_ok (len : N) (l : list anode) : bool :=
+  let dflt := mkAN 0 false 0 0 true true None false in
+  forallb (fun ia =>
+    let '(i, a) := ia in
+    (an_lo a <=? an_hi a) && (an_hi a <=? len) && an_bnd a && an_text a &&
+    (let p := nth (an_parent a) l dflt in
+     negb (an_cover a) || Nat.eqb (an_parent a) i || negb (an_own p) || ((an_lo p <=? an_lo a) && (an_hi a <=? an_hi p))) &&
+    match an_prev a with
+    | Some j => an_hi (nth j l dflt) <=? an_lo a
+    | None => true
+    end)
+  (combine (seq 0 (length l)) l).
+
 (* S: the property, on what the implementation returned *)
 Definition spans_in_bounds (len : N) (es : list event) : bool :=
   forallb (fun e => let '(l, h) := ev_span e in (l <=? h) && (h <=? len)) es.
@@ -201,4 +227,7 @@ Definition spec_case (c : case) : bool :=
   match c_ast c with
   | None => false                                    (* building the AST must not panic *)
   | Some spans => forallb (fun sp => (fst sp <=? snd sp) && (snd sp <=? c_len c)) spans
-  end.
+  end &&
+  ast_nodes_ok (c_len c) (c_ast_nodes c) &&
+  (* a source that is valid UTF-8 has a CST (no token ends inside a character) *)
+  (negb (c_valid_utf8 c) || c_cst_built c).
